@@ -13,7 +13,7 @@ for d in "$wt"/_out/b*/; do
   if ! (cd "$tmp" && patch -s -p1 --no-backup-if-mismatch < "$d/patch.diff" >/dev/null 2>&1); then echo "REJECTED $id $k: patch does not apply"; rm -rf "$tmp"; continue; fi
   if ! (cd "$tmp" && go build ./... >/dev/null 2>&1 && go test -vet=off -count=1 ./... >/dev/null 2>&1); then echo "REJECTED $id $k: build or suite fails"; rm -rf "$tmp"; continue; fi
   mkdir -p "$dst"; cp "$d/patch.diff" "$d/meta.json" "$dst/"
-  bin/mgcheck all quick -repo "$tmp" -quiet > "$dst/matrix.txt" 2>&1
+  ${MGBIN:-bin/mgcheck} all quick -repo "$tmp" -quiet > "$dst/matrix.txt" 2>&1
   rm -rf "$tmp"
   python3 - "$dst" <<'PY'
 import json,sys,re,os
